@@ -16,13 +16,17 @@ HERE = os.path.dirname(os.path.dirname(os.path.abspath(__file__)))
 REPO = os.environ.get("INFOCF_REPO", "/repo")
 
 
-def _verify_one(q):
+SHARDS = 4  # obligations of slow functions (contract fuel >= 5) are discharged by 4 processes
+
+
+def _verify_one(job):
     from pyvc import logic, run
 
+    q, shard = job
     logic.CROSS_CHECK = os.environ.get("VERIF_CROSS") == "1"
     run.load_contracts()
     try:
-        return run.verify_function(q)
+        return run.verify_function(q, shard=shard)
     except BaseException as e:  # noqa
         return {"function": q, "status": "undecided", "reason": f"checker error {type(e).__name__}: {e}", "obligations": [], "trace": traceback.format_exc()[-2000:]}
 
@@ -36,9 +40,36 @@ def engine_p(prop):
     quals = [q for q, c in C.REGISTRY.items() if prop in c.properties and not c.trusted]
     if not quals:
         return [], []
+    jobs = []
+    for q in quals:
+        if C.get(q).fuel >= 5:
+            jobs += [(q, (k, SHARDS)) for k in range(SHARDS)]
+        else:
+            jobs.append((q, None))
+    jobs.sort(key=lambda j: 0 if j[1] else 1)  # slow shards first
     ctx = mp.get_context("fork")
-    with ctx.Pool(min(16, len(quals))) as pool:
-        results = pool.map(_verify_one, quals, chunksize=1)
+    with ctx.Pool(min(16, len(jobs))) as pool:
+        parts = pool.map(_verify_one, jobs, chunksize=1)
+    # merge the shards of one function
+    merged: dict = {}
+    for r in parts:
+        q = r["function"]
+        if q not in merged:
+            merged[q] = r
+            continue
+        m = merged[q]
+        m["obligations"] = m["obligations"] + r["obligations"]
+        order = {"failed": 3, "undecided": 2, "proved": 1, None: 0}
+        if order[r["status"]] > order[m["status"]]:
+            m["status"] = r["status"]
+            if r.get("reason"):
+                m["reason"] = r["reason"]
+        if r.get("vacuity"):
+            m["vacuity"] = r["vacuity"]
+        for v in r.get("vacuity_failures", []) or []:
+            m.setdefault("vacuity_failures", []).append(v)
+        m["seconds"] = max(m.get("seconds") or 0, r.get("seconds") or 0)
+    results = [merged[q] for q in quals]
     trusted = sorted(q for q, c in C.REGISTRY.items() if c.trusted)
     return results, trusted
 
